@@ -69,6 +69,9 @@ type CtxPlan struct {
 	// SlowDeadline: the transport's SetDeadline yields the processor this many
 	// times before it takes effect (a watcher that is slow to act).
 	SlowDeadline int `json:"slow_deadline,omitempty"`
+	// StallOne (siblings): the transport of one silent connection stalls inside
+	// SetDeadline for an hour.
+	StallOne bool `json:"stall_one,omitempty"`
 	// ZeroWindow: the client does not read (blocked scenario): the alert write blocks.
 	ZeroWindow bool `json:"zero_window,omitempty"`
 	// Malformed (blocked scenario): the client sends a complete record that
@@ -433,6 +436,17 @@ func executeCtx(t *testing.T, prop string, seed uint64, p *CtxPlan) *core.Result
 				cancel()
 				continue
 			}
+			// the connection handed out is the one the hello asks for, whenever the
+			// context ended: it bounds the reading, not what is made of what was read
+			if p.Base.Expect != "passthrough" && !p.Base.NoECH {
+				if !conn.ECHAccepted() || conn.ServerName() != b.inner.SNI() {
+					when := "context alive throughout"
+					if endedDuring {
+						when = "context ended while NewConn was finishing (" + p.InRead + ")"
+					}
+					res.Fail(prop, "ctx", "NewConn succeeds with a connection that is not what the hello it read asks for", "accepted=%v name=%q, the hello is sealed to a configured key for %q; %s", conn.ECHAccepted(), conn.ServerName(), b.inner.SNI(), when)
+				}
+			}
 			// long after: the connection must be unaffected
 			time.Sleep(time.Hour)
 			synctest.Wait()
@@ -564,6 +578,7 @@ func genC10(seed uint64, idx int) *Plan {
 		c.Siblings = 3 + r.IntN(4)
 		c.EndKind = []string{"cancel", "timeout"}[r.IntN(2)]
 		c.Reps = 8
+		c.StallOne = idx%32 == 11
 		return &Plan{Kind: "ctx", Seed: seed, Ctx: c}
 	}
 	c.Procs = []int{1, 2, 4, 16}[idx%4]
